@@ -841,3 +841,6 @@ def run(rep, program: Program, tier: str) -> None:
     rep.isolate(rule_r1, rep, program)
     rep.isolate(rule_r2, rep, program)
     rep.isolate(rule_r3, rep, program)
+    from . import samplersim
+
+    rep.isolate(samplersim.rule, rep, program, tier, PROP, "R5")
